@@ -208,3 +208,61 @@ def prove(mod, name, ins, outs, spec, W=1, lanes=None, exact=False, alias=None, 
                 except (Undecided, KeyError) as e:
                     res.undecided.append('lane %d: %s' % (lane, str(e)[:200]))
     return res
+
+
+def prove_cells(mod, name, nargs, in_cells, out_cells, specs, alias=None, seed=0, budget=6000, exact=False):
+    """kernel-mode proof for routines whose operands are small arrays of Elements.
+    nargs: number of pointer arguments; in_cells: [(arg index, byte offset, symbol, typestate)];
+    out_cells: [(arg index, byte offset)]; specs: [function(symbol polys dict) -> Poly] per output cell;
+    alias: {arg index: arg index} arguments that are the same object"""
+    gc = kernel_globals(mod)
+    res = Outcome()
+    pres = [BOXES[ts] for (_, _, _, ts) in in_cells]
+    for boxes in itertools.product(*pres):
+        viol = []
+        S = int_summaries(mod, viol)
+        K = KInterp(mod, lane=0, summaries=S, globals_=gc, budget=budget)
+        c = Case()
+        st = St(c, {}, {})
+        ptrs = []
+        for i in range(nargs):
+            j = alias.get(i, i) if alias else i
+            ptrs.append(KPtr('arg%d' % j, 0))
+        A = {}
+        for (ai, off, nm, ts), bx in zip(in_cells, boxes):
+            v = sym64(c, nm, bx, 0)
+            A[nm] = Poly.var(nm + 'h') * M32 + Poly.var(nm + 'l')
+            st.mem[KPtr(ptrs[ai].obj, off)] = v
+        try:
+            outs = K.run_fn(st, name, ptrs)
+        except (Undecided, IRError, KeyError, AssertionError) as e:
+            res.undecided.append('%s: %s' % (type(e).__name__, str(e)[:200]))
+            continue
+        res.asm += K.asm_info
+        for st2, ret in outs:
+            cs = st2.case
+            if not cs.feasible():
+                continue
+            res.cells += 1
+            try:
+                for (ai, off), sp in zip(out_cells, specs):
+                    o = st2.mem.get(KPtr(ptrs[ai].obj, off))
+                    if o is None:
+                        raise Undecided('output cell arg%d+%d is never written' % (ai, off))
+                    o = K.tokv(cs, K.resolve(cs, o))
+                    diff = o.p - sp(A)
+                    z = final_poly(cs, diff, exact)
+                    lo, hi = cs.bound(o.p, o.lo, o.hi)
+                    res.max_out = max(res.max_out, hi)
+                    problems = []
+                    if z.d:
+                        problems.append('cell arg%d+%d differs from the specification by %s' % (ai, off, str(z)[:120]))
+                    if o.sh:
+                        problems.append('cell arg%d+%d holds a shifted value' % (ai, off))
+                    if problems:
+                        wit = witness_search(cs, final_poly(cs, diff, True) if cs.subst else diff, seed, exact=exact) if z.d else None
+                        res.failures.append(dict(lane=0, box={}, detail='; '.join(problems), witness=wit, constraints=[]))
+                        break
+            except (Undecided, KeyError) as e:
+                res.undecided.append(str(e)[:200])
+    return res
